@@ -4,7 +4,9 @@
 (* and their conversions.  A container is a sequence of identifiers and a  *)
 (* set of parameter declarations [name, shape]; a conversion path is one   *)
 (* of  "df" (to_dataframe / from_dataframe), "pt" (to_pytorch /            *)
-(* from_pytorch), "csv", "json" (save / load).                             *)
+(* from_pytorch), "csv", "json" (save / load), "json_sorted" (json written  *)
+(* with sorted keys: the order of the file's object differs from the order *)
+(* of its identifier list).                                                *)
 (* Shapes: "scalar" (), "len1" (1,), "len2" (2,), "len12" (12,): more than  *)
 (* ten components, so that text order and numeric order of the columns     *)
 (* of the table form differ.                                               *)
@@ -40,6 +42,6 @@ Expected(P, p) ==
 
 Lossless == Expected(params, path) = [status |-> "ok", decls |-> params]
 \* the conversions are lossless exactly outside the two named deviations
-LosslessExceptNamed == Lossless \/ (\E d \in params : d.shape = "scalar" /\ path # "json")
+LosslessExceptNamed == Lossless \/ (\E d \in params : d.shape = "scalar" /\ path \notin {"json", "json_sorted"})
                                 \/ (\E d \in params : HasUnderscore(d.name) /\ TableLike(path))
 =============================================================================
